@@ -11,7 +11,9 @@ import re
 
 from mirsmt import Int, Bool, Tup, Opt, Slice, Elem, Ref, Box_, Opaque, U64, Unsupported
 
-ISIZE_MAX = 2 ** 63 - 1
+# Vec/slice lengths: zero-sized element types are not limited to isize::MAX elements, so the kernels
+# are checked for every length below 2^64 (a superset of what sized element types can reach)
+ISIZE_MAX = 2 ** 64 - 1
 
 
 def struct_fields(src_dir):
